@@ -689,7 +689,7 @@ impl Runner {
         match toks[0] {
             "clear" => c.clear(toks),
             "clonetape" => c.clone_tape(toks),
-            "cmp" | "show" => {
+            "cmp" | "show" | "debug" => {
                 if !refs_ok(&c.main.names, toks, refs_from(toks)) {
                     return "bad-ref".into();
                 }
